@@ -150,7 +150,12 @@ def toNTree (ts : List (Field × Nat)) : RTree → Nat → NTree × Nat
 structure Extracted where
   names : List String           -- relation names in tree order
   tree : NTree
+  projLeaf : List Bool := []    -- per relation: is the root of its sub-plan a `Project` node?
 deriving Inhabited
+
+def isProjectRoot : Plan → Bool
+  | .project _ _ _ => true
+  | _ => false
 
 /-- read the join region of a plan; `none`: the plan has no inner/cross join region, or a leaf has no name -/
 def extract (p : Plan) : Option Extracted :=
@@ -161,7 +166,7 @@ def extract (p : Plan) : Option Extracted :=
     let leaves := rt.leaves
     match leaves.mapM leafName with
     | none => none
-    | some names => some { names := names, tree := (toNTree (taggedSchema leaves) rt 0).1 }
+    | some names => some { names := names, tree := (toNTree (taggedSchema leaves) rt 0).1, projLeaf := leaves.map isProjectRoot }
 
 def NTree.crossCount : NTree → Nat
   | .leaf _ => 0
